@@ -9,7 +9,7 @@ import types
 import z3
 
 from . import spec as specmod
-from .values import (PList, SV, SInt, SReal, SBool, SStr, SBits, SAny, SChoice, SSeq,
+from .values import (PList, SOptInt, SV, SInt, SReal, SBool, SStr, SBits, SAny, SChoice, SSeq,
                      SObj, SDict, Closure, BoundMethod, SuperProxy, ExcVal,
                      fresh_name, lift, simplify_concrete)
 
@@ -162,9 +162,7 @@ def norm_index(interp, idx, n, exc=IndexError):
   zi = interp.to_z3(idx)
   if zi is None or zi.sort() != z3.IntSort():
     raise pyraise(TypeError, 'index')
-  ok = interp.path.branch(z3.And(zi >= -n, zi < n))
-  if not ok:
-    raise pyraise(exc, 'index out of range')
+  interp.path.raise_if(z3.Not(z3.And(zi >= -n, zi < n)), ExcVal(exc, ('index out of range',)))
   return z3.simplify(z3.If(zi < 0, zi + n, zi))
 
 
@@ -776,6 +774,17 @@ def call_builtin_type(interp, fn, args, kwargs, frame):
     if len(args) == 1:
       a = [None, args[0], None]
     return I.SSlice(*a)
+  if (fn is set or fn is frozenset) and args and isinstance(args[0], SSeq):
+    s_ = args[0]
+    n = z3.Int(fresh_name('setlen'))
+    a, b_ = z3.Ints(f'{fresh_name("a")} {fresh_name("b")}')
+    distinct = z3.ForAll([a, b_], z3.Implies(z3.And(a >= 0, a < b_, b_ < s_.len),
+                                            z3.Select(s_.arr, a) != z3.Select(s_.arr, b_)))
+    interp.path.assume(z3.And(n >= 0, n <= s_.len, z3.Implies(s_.len > 0, n >= 1),
+                              (n == s_.len) == distinct), check=False)
+    r = SAny('set()')
+    r.memo['len'] = SInt(n)
+    return r
   if fn is set or fn is frozenset:
     if not args:
       return fn()
@@ -875,6 +884,13 @@ def _b_isinstance(interp, args, kwargs, frame):
         v.memo[key] = z
       return SBool(z)
     raise unsupported('isinstance with opaque type')
+  if isinstance(v, SOptInt):
+    ts_ = t if isinstance(t, tuple) else (t,)
+    if all(x in (int, float, bool) or (isinstance(x, type) and issubclass(int, x)) for x in ts_) and \
+        any(issubclass(int, x) for x in ts_ if isinstance(x, type)):
+      return simplify_concrete(SBool(v.present))
+    if all(isinstance(x, type) and not issubclass(int, x) and x is not type(None) for x in ts_):
+      raise unsupported('isinstance of optional int against non-int types')
   c = class_of(interp, v)
   if c is None:
     raise unsupported(f'isinstance of {v!r}')
@@ -1002,6 +1018,19 @@ def _b_sorted(interp, args, kwargs, frame):
   h = interp.policy.handlers.get(('sorted',))
   if h is not None:
     return h(interp, args, kwargs, frame)
+  src = interp.resolve(args[0])
+  if isinstance(src, SSeq) and not kwargs and src.sort == z3.IntSort():
+    # sorted(S): a nondecreasing sequence of the same length which equals S
+    # element-wise iff S is itself nondecreasing (the permutation property is
+    # not modelled beyond that).
+    t = z3.Array(fresh_name('sorted'), z3.IntSort(), z3.IntSort())
+    j = z3.Int(fresh_name('j'))
+    nondecr = lambda arr: z3.ForAll([j], z3.Implies(z3.And(j >= 0, j + 1 < src.len),
+                                                    z3.Select(arr, j) <= z3.Select(arr, j + 1)))
+    same = z3.ForAll([j], z3.Implies(z3.And(j >= 0, j < src.len),
+                                     z3.Select(t, j) == z3.Select(src.arr, j)))
+    interp.path.assume(z3.And(nondecr(t), same == nondecr(src.arr)), check=False)
+    return SSeq(t, src.len, src.wrap, src.unwrap, 'list', src.sort)
   if items is not None:
     keyf = kwargs.get('key')
     rev = kwargs.get('reverse', False)
